@@ -55,6 +55,8 @@ def gen_history(rng):
     ops = []
     if rng.random() < 0.25:
         ops.append(("clock", rng.choice([2, 3, 5])))
+    if rng.random() < 0.2:
+        ops.append(("strict_warnings",))
     big = rng.random() < 0.12
     if big:
         ops.append(("logmany", rng.choice([rng.randint(1001, 1100), rng.randint(1990, 2100), rng.randint(2500, 4400)])))
@@ -141,7 +143,11 @@ def run_history(ops):
                     expected[d].append(rec)
 
     for op in ops:
-        if op[0] == "clock":
+        if op[0] == "strict_warnings":
+            # the process runs with warnings turned into errors (python -W error)
+            import warnings as _warnings
+            _warnings.simplefilter("error")
+        elif op[0] == "clock":
             # the wall clock is stepped backwards now and then (NTP adjustment, VM resume): timestamps are not monotonic
             import time as _time
             state = {"now": 2000.0, "calls": 0, "every": op[1]}
@@ -245,9 +251,9 @@ def part_history(spec, res):
         adds = sum(1 for o in ops if o[0] == "add")
         if ops[0][0] == "clock":
             c["histories_with_a_clock_stepping_backwards"] = c.get("histories_with_a_clock_stepping_backwards", 0) + 1
-        if (adds >= 2 and any(o[0] == "remove" for o in ops)) or any(o[0] == "logmany" for o in ops[:2]):
+        if (adds >= 2 and any(o[0] == "remove" for o in ops)) or any(o[0] == "logmany" for o in ops[:3]):
             res["nontrivial"].append(h(ops))
-        if any(o[0] == "logmany" for o in ops[:2]):
+        if any(o[0] == "logmany" for o in ops[:3]):
             c["histories_over_1000_buffered"] = c.get("histories_over_1000_buffered", 0) + 1
         if res.get("sample") is None and len(ops) <= 10 and adds >= 2:
             res["sample"] = {"part": "history", "ops": ops}
@@ -420,6 +426,8 @@ def registry_once(plan_, ops):
 
         def d(m, name=name):
             tapes[name].append(m.get("n"))
+            if m.get("n") == "final":
+                tapes["final_globals"] = sorted(k for k in m if k.startswith("gf_"))
         d.__name__ = name
         return d
     base = make("base")
@@ -434,6 +442,8 @@ def registry_once(plan_, ops):
                 add_destinations(new[name])
             elif kind == "remove":
                 remove_destination(pre[name])
+            elif kind == "globals":
+                add_global_fields(**{"gf_" + name: name})
             else:
                 for k in range(2):
                     log_message(message_type="reg", n="during%d" % k)
@@ -454,6 +464,9 @@ def part_registry(spec, res):
         ops.append((rng.choice(["add", "add", "remove"]), "d%d" % j))
     if rng.random() < 0.5:
         ops.append(("log", "logger"))
+    if spec["i"] % 3 == 2:
+        # two threads setting global fields at the same time (and one adding a destination or logging)
+        ops = [("globals", "a"), ("globals", "b"), rng.choice([("add", "d2"), ("log", "logger"), ("globals", "c")])]
     names = ["W%d" % j for j in range(len(ops))]
     c = res["counters"]
 
@@ -484,6 +497,10 @@ def part_registry(spec, res):
                     problems.append("destination %s was added (call returned) but did not receive a message logged afterwards" % name)
                 if opkind == "remove" and got_final:
                     problems.append("destination %s was removed (call returned) but still received a message logged afterwards" % name)
+            want_g = sorted("gf_" + name for opkind, name in ops if opkind == "globals")
+            if want_g and tapes.get("final_globals") != want_g:
+                problems.append("global fields set by concurrent add_global_fields calls that all returned: a message logged afterwards carries %s, expected %s" % (
+                    tapes.get("final_globals"), want_g))
             base = tapes.get("base", [])
             if base.count("final") != 1 or [x for x in base if x != "final"] != data["logged"]:
                 problems.append("the destination registered throughout received %s, logged %s + final" % (base, data["logged"]))
